@@ -423,6 +423,17 @@ theorem roundtrip_status_leaf_fetch (env : Env) (field : Path) (body p essence :
 
 /-! ## other handlers / marking after a sequence of writes -/
 
+/-- what a handler reads depends only on its own annotation names (and the marking bit) -/
+theorem annFetch_congr (env : Env) (c : AnnCfg) (b1 b2 : J) (k' : Str) (hd : isDRS b1 = isDRS b2)
+    (h : ∀ n ∈ annNames env c.pfx c.v1 b1 k', resolve? b1 (annPath n) = resolve? b2 (annPath n)) :
+    annFetch env c b1 k' = annFetch env c b2 k' := by
+  unfold annFetch
+  have e : annNames env c.pfx c.v1 b2 k' = annNames env c.pfx c.v1 b1 k' := by simp only [annNames, hd]
+  rw [e]
+  exact fetchNames_congr env b1 b2 _ h
+
+
+
 theorem fetch_unchanged_of_touches {env : Env} {c : AnnCfg} {body p p' : J} {k' : Str} {ps : List Path}
     (hw : wf p = true) (hs : MarkStable p) (t : Touches p p' ps) (hs' : MarkStable p')
     (hd : ∀ n' ∈ annNames env c.pfx c.v1 body k', ∀ path ∈ ps, diverge (annPath n') path = true) :
